@@ -211,7 +211,9 @@ func VerifC07_QueueOrder() {
 
 func VerifC07_CancelledNeverStarts() {
 	rt.SchedYieldOnly(true)
+	rt.SpinLimit(200) // a handler that loops without ever waiting is a livelock
 	m := c07Reset()
+	u := rt.Unit()
 	started := false
 	t := m.NewTask("t", func(context.Context, *Task) error { started = true; return nil })
 	switch rt.Choice("how", 4) {
@@ -222,9 +224,14 @@ func VerifC07_CancelledNeverStarts() {
 	case 2:
 		t.MaxDelay(0).StartASAP()
 	case 3:
-		t.Schedule(time.Now().Add(time.Second))
+		t.Schedule(time.Now().Add(u))
 	}
 	t.Cancel()
+	// the cancelled entry does not hold up what waits behind it: a task
+	// scheduled for a later time, and a queued one
+	laterRan, queuedRan := false, false
+	m.NewTask("later", func(context.Context, *Task) error { laterRan = true; return nil }).Schedule(time.Now().Add(2 * u))
+	m.NewTask("queued", func(context.Context, *Task) error { queuedRan = true; return nil }).MaxDelay(0).Queue()
 	go func() {
 		for {
 			taskTimeslot <- struct{}{}
@@ -232,8 +239,10 @@ func VerifC07_CancelledNeverStarts() {
 	}()
 	go taskQueueHandler()
 	go taskScheduleHandler()
-	rt.Quiesce(10 * time.Minute)
+	time.Sleep(6 * u)
 	rt.Assert(!started, "cancel/cancelled-task-never-starts")
+	rt.Assert(laterRan, "cancel/task-scheduled-behind-a-cancelled-one-still-runs")
+	rt.Assert(queuedRan, "cancel/task-queued-behind-a-cancelled-one-still-runs")
 	rt.Reach("cancel-end")
 }
 
